@@ -15,6 +15,10 @@ CHILD = {
     'f1b': [['D', 1], ['RAISE', 'IndexError', 'f1b']],
     'f2': [['D', 2], ['RAISE', 'ValueError', 'f2']],
     'priv1': [['D', 1], ['RAISE', 'AssertionError', 'priv1']],
+    # proper subclasses of the privileged types, directly and through a nested scope
+    'priv1s': [['D', 1], ['RAISE', 'Mismatch', 'priv1s']],
+    'priv1k': [['D', 1], ['RAISE', 'Abort', 'priv1k']],
+    'nest_priv': [['SCOPE', 'n', [['DO', 'g1', [['D', 2]]], ['DO', 'g2', [['D', 1], ['RAISE', 'Mismatch', 'g2']]]]]],
     'nest_ok': [['SCOPE', 'n', [['DO', 'g1', [['D', 2]]], ['DO', 'g2', [['D', 1]]]]], ['INSTANT']],
     'nest_fail': [['SCOPE', 'n', [['DO', 'g1', [['D', 2], ['D', 1]]], ['DO', 'g2', [['D', 1], ['RAISE', 'ValueError', 'g2']]]]]],
     'nest_slow': [['SCOPE', 'n', [['DO', 'g1', [['D', 3]]], ['DO', 'gv', [['D', 1], ['D', 1], ['D', 1], ['D', 1]], {'volatile': True}]]]],
@@ -121,6 +125,12 @@ def cases(tier):
             for extra in ([], ['awaitf'], ['d2'], ['tick']):
                 kids = [('victf', False), ('awaitf', False)] + [(e, e == 'tick') for e in extra]
                 out.append(program(kind, kids, body))
+    # privileged failures of a subclass type next to ordinary failures and to each other
+    for kind in ('scope', 'until2'):
+        for body in ('none', 'd2', 'raise1'):
+            for kids in (('priv1s', 'f1'), ('f1', 'priv1s'), ('priv1s', 'priv1'), ('priv1', 'priv1s'), ('priv1k', 'f1b'),
+                         ('f1', 'nest_priv'), ('nest_priv', 'priv1k'), ('d2', 'priv1s', 'f1b')):
+                out.append(program(kind, [(k, False) for k in kids], body))
     # spawning into the scope from outside, before and after its end
     for kind in ('scope', 'until1'):
         for body in ('none', 'd1', 'raise1'):
